@@ -490,7 +490,7 @@ func (cs *supply) Reserve(g Grant, o *libmem.Offer) (map[string]libmem.NodeMask,
 		cs.sharable = cs.sharable.Difference(exclusive)
 		cs.grantedShared += sharedPortion
 	} else if g.CPUType() == cpuReserved {
-		sharedPortion := 1000*g.ExclusiveCPUs().Size() + g.SharedPortion()
+		sharedPortion := 1000*g.ExclusiveCPUs().Size() + g.ReservedPortion()
 		if sharedPortion > 0 && cs.AllocatableReservedCPU() < sharedPortion {
 			return nil, policyError("can't reserve %d reserved CPUs of %s from %s",
 				sharedPortion, g.String(), cs.DumpAllocatable())
